@@ -142,8 +142,9 @@ func (p *Prog) errLeaves(v ssa.Value, pred, succ *ssa.BasicBlock, depth int, see
 	return []errLeaf{{"unknown", v.String()}}
 }
 
-func c20err(p *Prog, r *Report) {
-	const rule = "C20.err"
+func c20err(p *Prog, r *Report) { proxyErrRule(p, r, "C20.err") }
+
+func proxyErrRule(p *Prog, r *Report, rule string) {
 	r.Rule(rule, 8, "a failed proxy call is reported as an error, never as an empty success")
 	for _, w := range [][2]string{{PAPP, "SocketAppProxyClient"}, {PBAB, "SocketBabbleProxyClient"}} {
 		fn := p.Func(w[0], w[1], "call")
